@@ -230,4 +230,8 @@ def run(F, rep):
     from engines import rule_visit_all
     rule_visit_all(F, rep, 'C17.Y1', lambda g: g.file.endswith('/generator.cpp'), 8, 'generator.cpp')
 
-
+    # ------------------------------------------------------------------ clause shared with C03: a profile switched with setProfile() equals a fresh one
+    if not getattr(rep, 'nested', False):
+        import core
+        import c03
+        c03.run(F, core.Borrowed(rep, only={'C03.F1'}))
